@@ -14,6 +14,28 @@ pub const ALPHA: &[char] = &[
 /// literal-text alphabet for the round trip (no backslash)
 pub const LIT: &[char] = &['a', 'A', 'ä', ' ', '!', '^', '\'', '$'];
 
+/// One non-ASCII representative per signature that the smart-case / smart-normalisation /
+/// folding decisions can distinguish: (has a simple case folding, std is_uppercase, std
+/// is_lowercase, normalisation changes it, folding gives an ASCII char, is whitespace).
+pub fn signature_chars() -> Vec<char> {
+    let mut seen: std::collections::BTreeMap<(bool, bool, bool, bool, bool, bool), char> = Default::default();
+    for cp in 0x80u32..0x30000 {
+        let Some(c) = char::from_u32(cp) else { continue };
+        // combining marks and other grapheme extenders would be truncated away (documented)
+        if !(c.is_alphanumeric() || c.is_whitespace()) {
+            continue;
+        }
+        use unicode_segmentation::UnicodeSegmentation;
+        let s: String = ['a', c, 'a'].iter().collect();
+        if s.graphemes(true).count() != 3 {
+            continue;
+        }
+        let sig = (chars::is_upper_case(c), c.is_uppercase(), c.is_lowercase(), chars::normalize(c) != c, chars::to_lower_case(c).is_ascii(), c.is_whitespace());
+        seen.entry(sig).or_insert(c);
+    }
+    seen.into_values().collect()
+}
+
 #[derive(Clone, Debug, PartialEq, Eq)]
 pub struct RefAtom {
     pub negative: bool,
@@ -370,6 +392,26 @@ pub fn run(tier: &str) -> ! {
         }
     });
     rep.acc.merge(acc);
+    // the same checks over an alphabet with one representative per case/normalisation signature
+    let mut sig_alpha: Vec<char> = vec!['a', 'A', ' ', '\\', '!', '$'];
+    sig_alpha.extend(signature_chars());
+    let sig_len = if rep.is_thorough() { 4 } else { 3 };
+    let total_sig = count_strings(sig_alpha.len(), sig_len);
+    let shards_sig = ((total_sig + chunk - 1) / chunk) as usize;
+    let acc = par_shards(shards_sig, threads(), |shard, acc| {
+        let mut buf = Vec::new();
+        let lo = shard as u64 * chunk;
+        for i in lo..(lo + chunk).min(total_sig) {
+            decode(i, &sig_alpha, &mut buf);
+            acc.evaluations += 1;
+            let r = std::panic::catch_unwind(std::panic::AssertUnwindSafe(|| check_text(&buf, acc)));
+            if r.is_err() {
+                acc.violation("C14/panic", "a pattern constructor panicked", || json!({"text": show(&buf)}));
+            }
+        }
+    });
+    rep.acc.merge(acc);
+    rep.extra("signature_alphabet", show(&sig_alpha));
     let total_lit = count_strings(LIT.len(), lit_len);
     let shards = ((total_lit + chunk - 1) / chunk) as usize;
     let acc = par_shards(shards, threads(), |shard, acc| {
@@ -397,7 +439,7 @@ pub fn run(tier: &str) -> ! {
         }
     });
     rep.acc.merge(acc);
-    let expect = total + total_lit + npair * npair;
+    let expect = total + total_sig + total_lit + npair * npair;
     rep.exhaustive = rep.acc.evaluations == expect;
     if !rep.exhaustive {
         rep.caps.push(format!("{} of {} cases", rep.acc.evaluations, expect));
